@@ -5,7 +5,7 @@ import glob, importlib, os, sys
 sys.path.insert(0, os.path.dirname(os.path.abspath(__file__)))
 import core
 def main():
-    props = sorted(os.path.basename(f)[:-5] for f in glob.glob(os.path.join(core.ROOT, "harness", "manifest.d", "C*.json")))
+    props = sorted(open(os.path.join(core.ROOT, "harness", "registered.txt")).read().split())
     targets, mods = [], []
     for p in props:
         m = importlib.import_module(p.lower()).PROPERTY()
